@@ -426,7 +426,7 @@ def job_row_order(job, n):
     job.prove(f"row-order[{n}]/reach", dom, expect="sat")
 
 
-def replay_user_alpha(model, n=3):
+def replay_user_alpha(model, n=3, pp_dtype="f8"):
     """Real FlowProperties from the model's table with the full PVT columns AND the user's own diffusivity column: the
     diffusivity the solver reads at every table node is the user's."""
     import warnings
@@ -441,20 +441,33 @@ def replay_user_alpha(model, n=3):
         t = _real_table(m, n, cols)
         if const:
             t["alpha"] = np.full(n, 3.5)
+        if pp_dtype != "f8":
+            # a pseudopressure column of whole numbers with an integer dtype (np.arange(...)**2, a CSV of whole numbers)
+            q = [max(int(round(t["pseudopressure"][0])), 1)]
+            for v in t["pseudopressure"][1:]:
+                q.append(max(int(round(v)), q[-1] + 1))
+            t["pseudopressure"] = np.array(q, dtype="int64")
         pi = min(max(m["pi"], float(t["pressure"][0])), float(t["pressure"][-1]))
         with warnings.catch_warnings():
             warnings.simplefilter("ignore")
             with np.errstate(all="ignore"):
-                A = fp.FlowProperties({k: v.copy() for k, v in t.items()}, pi)
-                ms = np.asarray(A.pvt_props["m-scaled"], float)
-                got = np.asarray(A.alpha(ms), float)
+                try:
+                    A = fp.FlowProperties({k: v.copy() for k, v in t.items()}, pi)
+                    ms = np.asarray(A.pvt_props["m-scaled"], float)
+                    got = np.asarray(A.alpha(ms), float)
+                except Exception as ex:  # noqa: BLE001
+                    problems.append(f"FlowProperties / its diffusivity lookup raised {ex!r} on an admissible table (pseudopressure dtype {t['pseudopressure'].dtype})")
+                    continue
+        if not np.all(np.isfinite(ms)) or np.any(np.diff(ms) <= 0):
+            problems.append(f"scaled pseudopressure {ms.tolist()} is not increasing (pseudopressure column {t['pseudopressure']!r})")
+            continue
         for k in range(n):
             if abs(got[k] - t["alpha"][k]) > 1e-9 * abs(t["alpha"][k]):
                 problems.append(f"user diffusivity column {t['alpha'].tolist()}: the solver reads alpha = {got[k]!r} at table node {k}")
     return bool(problems), {"what": "; ".join(problems[:2]) or "the user's diffusivity is the one the solver reads", "inputs": m}
 
 
-def job_user_alpha(job, n):
+def job_user_alpha(job, n, pp_dtype="f8"):
     """Which problem is solved when the table carries the user's own diffusivity column next to the full PVT columns: the
     documented one with the USER's diffusivity (the constant-diffusivity closed form when that column is constant), so the
     function the time stepping reads must return the user's values at the table nodes."""
@@ -464,8 +477,13 @@ def job_user_alpha(job, n):
     tab, ps, dom = c09._table(n, c09.LONG + ("alpha",))
     pi = fresh("pi", pos=True)
     dom = dom + [T.b_le(P(ps[0]), P(pi)), T.b_le(P(pi), P(ps[-1]))]
-    rp = (replay_user_alpha, {"n": n})
+    rp = (replay_user_alpha, {"n": n, "pp_dtype": pp_dtype})
     user = list(tab["alpha"].d)
+    dtag = ""
+    if pp_dtype != "f8":
+        tab["pseudopressure"] = SymArray(list(tab["pseudopressure"].d), pp_dtype)
+        dtag = ", int64 pseudopressure column"
+        job.bound(pseudopressure_dtype="whole numbers in an integer-typed column")
 
     def run():
         import warnings
@@ -476,12 +494,12 @@ def job_user_alpha(job, n):
         ms = A.pvt_props["m-scaled"]
         return [A.alpha(ms.d[k]) for k in range(n)]
 
-    for k, pr in enumerate(paths(job, run, dom, max_paths=256)):
+    for k, pr in enumerate(paths(job, run, dom, max_paths=256, catch=(Exception,))):
         if pr.exc is not None:
-            job.errors.append(f"user-alpha[{n}] raised {pr.exc!r}")
+            job.prove(f"user-alpha[{n}{dtag}]/raises {type(pr.exc).__name__}[path{k}]", pr.pc, bound=f"{n} rows", replay=rp, note=repr(pr.exc)[:100])
             continue
         bad = T.b_or(*[not_close(pr.value[j], user[j], abs_tol=Fraction(0)) for j in range(n)])
-        job.prove(f"user-alpha[{n}]/with full PVT columns and a diffusivity column, the solver reads the user's diffusivity at the nodes[path{k}]",
+        job.prove(f"user-alpha[{n}{dtag}]/with full PVT columns and a diffusivity column, the solver reads the user's diffusivity at the nodes[path{k}]",
                   pr.pc + [bad], bound=f"{n} rows", replay=rp)
     job.prove(f"user-alpha[{n}]/reach", dom, expect="sat")
 
@@ -491,7 +509,7 @@ FALLBACK = [(replay_boundary, {}), (replay_boundary, {"cls": "IdealReservoir"}),
 
 
 def jobs(tier):
-    out = [("row-order-3", lambda j: job_row_order(j, 3)), ("user-alpha-3", lambda j: job_user_alpha(j, 3))]
+    out = [("row-order-3", lambda j: job_row_order(j, 3)), ("user-alpha-3", lambda j: job_user_alpha(j, 3)), ("user-alpha-3-int-pseudopressure", lambda j: job_user_alpha(j, 3, "i8"))]
     for nx in ((5, 6) if tier == "quick" else (5, 6, 7, 8)):
         for cls in ("IdealReservoir", "SinglePhaseReservoir"):
             out.append((f"L1-{cls[:6]}-{nx}", lambda j, c=cls, n=nx: job_interior(j, c, n)))
